@@ -177,12 +177,17 @@ class FQN:
                         return_value = find_obj(m, name)
                         if return_value is not None:
                             return return_value
+                meta_attrs = getattr(parent.__class__, "_tx_attrs", {})
                 for attr in [
                     a
                     for a in parent.__dict__
                     if not a.startswith("__")
                     and not a.startswith("_tx_")
                     and not callable(getattr(parent, a))
+                    # Follow only containment. Do not walk up the parent
+                    # link nor through non-containment references.
+                    and a != "parent"
+                    and (a not in meta_attrs or meta_attrs[a].cont)
                 ]:
                     obj = getattr(parent, attr)
                     if isinstance(obj, (list, tuple)):
